@@ -15,4 +15,11 @@ def obligations(tier):
                     L.append(ob("%s/full/n=%d/utf8=%d/dup=%d" % (tag, n, u, d), "jsontext", fn, [n, 0, u, d]))
                 for n in ([4] if q else [5, 6]):
                     L.append(ob("%s/sigma24/n=%d/utf8=%d/dup=%d" % (tag, n, u, d), "jsontext", fn, [n, 1, u, d]))
+    # namespace linear->map switch (65th name / >1 KiB of names)
+    for cnt, ln, hl, ex in ([(64, False, 2, 0), (66, False, 2, 0), (3, True, 2, 0)] if q else
+                            [(63, False, 2, 2), (64, False, 2, 2), (65, False, 2, 0), (66, False, 2, 2), (70, False, 2, 0), (3, True, 2, 2), (1, True, 2, 0)]):
+        for d in (False, True):
+            if d and q:
+                continue
+            L.append(ob("ns/count=%d/long=%d/hole=%d/extra=%d/dup=%d" % (cnt, ln, hl, ex, d), "jsontext", "VerifC01NS", [cnt, ln, hl, ex, d], covers=["accept", "reject"] if not d else ["accept"], max_seconds=600))
     return L
